@@ -1544,7 +1544,8 @@ def lib_tree_map(ex, args, kwargs, pc):
         if t0 is None:
             return None
         if isinstance(t0, dict):
-            return {k: rec([t[k] for t in nodes]) for k in t0}
+            # JAX flattens dictionaries by *sorted* key and rebuilds them in that order
+            return {k: rec([t[k] for t in nodes]) for k in sorted(t0, key=str)}
         if isinstance(t0, (list, tuple)):
             return type(t0)(rec([t[i] for t in nodes]) for i in range(len(t0)))
         raise Unsupported("tree_map node")
@@ -1560,7 +1561,7 @@ def lib_tree_transpose(ex, args, kwargs, pc):
     outer, inner, tree = args
     if isinstance(tree, dict) and all(isinstance(v, (tuple, list)) for v in tree.values()):
         n = len(inner[1]) if isinstance(inner, tuple) and inner[0] == "treedef" else len(next(iter(tree.values())))
-        return [{k: v[i] for k, v in tree.items()} for i in range(n)]
+        return [{k: tree[k][i] for k in sorted(tree, key=str)} for i in range(n)]
     raise Unsupported("tree_transpose of this shape")
 
 
@@ -1644,7 +1645,41 @@ def lib_all(ex, args, kwargs, pc):
     raise Unsupported("jnp.all of an array")
 
 
+_ROUND = {}
+
+
+def narrow_cast(a, dtype):
+    """value of `a` converted to `dtype`.  `float` / float64 / None: the working precision (identity, floats are reals).
+    An explicitly narrower floating type (float32 / float16 / bfloat16) is an uninterpreted rounding rnd_T with
+    rnd_T(0) = 0 only: a value stored in a narrower type is not the value that was given.  Integer targets truncate."""
+    name = dtype.name if isinstance(dtype, (ModuleRef, Builtin)) else (dtype if isinstance(dtype, str) else None)
+    if dtype is None or dtype is float or name in ("float", "jnp.float64", "jnp.float_", "np.float64"):
+        return a
+    if name in ("jnp.float32", "jnp.float16", "jnp.bfloat16", "np.float32", "np.float16"):
+        if name not in _ROUND:
+            _ROUND[name] = z3.Function("round_to_" + name.split(".")[1], z3.RealSort(), z3.RealSort())
+        rnd = _ROUND[name]
+        if isinstance(a, SArr):
+            return SArr(a.shape, lambda *i: rnd(zreal(a.elem(*i))), "real")
+        return rnd(zreal(a))
+    if dtype is int or name in ("int", "jnp.int32", "jnp.int64", "np.int32", "np.int64"):
+        if isinstance(a, SArr):
+            if a.dtype == "int":
+                return a
+            return SArr(a.shape, lambda *i: z3.ToInt(zreal(a.elem(*i))), "int")
+        return a if (isinstance(a, int) or (is_z3(a) and a.sort() == z3.IntSort())) else z3.ToInt(zreal(a))
+    raise Unsupported(f"conversion to dtype {name or dtype}")
+
+
 def lib_array(ex, args, kwargs, pc):
+    out = _lib_array(ex, args, kwargs, pc)
+    dt = kwargs.get("dtype", args[1] if len(args) > 1 else None)
+    if dt is not None and (isinstance(out, SArr) or is_z3(out) or isinstance(out, (int, float))):
+        return narrow_cast(out, dt)
+    return out
+
+
+def _lib_array(ex, args, kwargs, pc):
     v = args[0]
     if isinstance(v, (list, tuple)) and v and all(not isinstance(x, (SArr, list, tuple, dict, Rec, bool)) and (is_z3(x) or isinstance(x, (int, float))) for x in v) \
             and any(is_z3(x) and x.sort() == z3.RealSort() or isinstance(x, float) for x in v):
@@ -1708,7 +1743,7 @@ LIB = {
 
 ARR_METHODS = {
     "reshape": lib_reshape_method,
-    "astype": lambda ex, a, args, kwargs, pc: a,
+    "astype": lambda ex, a, args, kwargs, pc: narrow_cast(a, args[0] if args else kwargs.get("dtype")),
     "flatten": lambda ex, a, args, kwargs, pc: flatten(ex, a),
 }
 
